@@ -22,6 +22,7 @@ use vcore::Report;
 
 /// page requests that arrived with a zero-length paging state (vacuity guard for the empty-state cases)
 static EMPTY_STATES_SEEN: std::sync::atomic::AtomicU64 = std::sync::atomic::AtomicU64::new(0);
+const CONST_STATE: &[u8] = &[0xC5, 0xC5, 0xC5, 0xC5];
 const DEADLINE: Duration = Duration::from_secs(20);
 /// (table, rows as a function of the number of peers)
 const TABLES: [&str; 7] = ["system.peers", "system.local", "system_schema.keyspaces", "system_schema.tables", "system_schema.columns", "system_schema.views", "system_schema.types"];
@@ -45,10 +46,12 @@ struct CcCase {
     fault: Option<(String, usize, String)>,
     /// (table, k): the paging state returned with page k-1 of that table (asking for page k) is ZERO-LENGTH
     empty: Option<(String, usize)>,
+    /// table whose every paging state is the SAME bytes (the server keeps the position itself)
+    constant: Option<String>,
 }
 impl CcCase {
     fn json(&self) -> Value {
-        json!({"leg": "control", "peers": self.peers, "splits": self.splits, "fault": self.fault.as_ref().map(|(t, p, k)| json!([t, p, k])), "empty_state": self.empty.as_ref().map(|(t, k)| json!([t, k]))})
+        json!({"leg": "control", "peers": self.peers, "splits": self.splits, "fault": self.fault.as_ref().map(|(t, p, k)| json!([t, p, k])), "empty_state": self.empty.as_ref().map(|(t, k)| json!([t, k])), "constant_state": self.constant})
     }
     fn from_json(v: &Value) -> Option<CcCase> {
         let splits = v["splits"].as_object()?.iter().map(|(k, s)| (k.clone(), s.as_array().map(|a| a.iter().map(|x| x.as_u64().unwrap_or(0) as usize).collect()).unwrap_or_default())).collect();
@@ -60,7 +63,7 @@ impl CcCase {
             Value::Array(a) if a.len() == 2 => Some((a[0].as_str()?.to_string(), a[1].as_u64()? as usize)),
             _ => None,
         };
-        Some(CcCase { peers: v["peers"].as_u64()? as usize, splits, fault, empty })
+        Some(CcCase { peers: v["peers"].as_u64()? as usize, splits, fault, empty, constant: v["constant_state"].as_str().map(|s| s.to_string()) })
     }
 }
 
@@ -68,6 +71,9 @@ impl CcCase {
 struct Shared {
     armed: Option<(String, usize, String)>,
     empty: Option<(String, usize)>,
+    constant: Option<String>,
+    /// per table: next page not yet answered (for the constant paging state)
+    cursors: BTreeMap<String, usize>,
     fired: usize,
     counts: BTreeMap<String, usize>,
     cap: usize,
@@ -108,7 +114,7 @@ impl World {
         for (t, s) in &first.splits {
             cluster.set_system_page_splits(t, Some(s.clone()));
         }
-        let shared: Arc<Mutex<Shared>> = Arc::new(Mutex::new(Shared { cap: 1_000_000, empty: first.empty.clone(), ..Default::default() }));
+        let shared: Arc<Mutex<Shared>> = Arc::new(Mutex::new(Shared { cap: 1_000_000, empty: first.empty.clone(), constant: first.constant.clone(), ..Default::default() }));
         let sh = shared.clone();
         cluster.handle(move |ctx| {
             let table = table_of(ctx.statement.as_deref())?;
@@ -116,7 +122,9 @@ impl World {
             let mut g = sh.lock().unwrap();
             // zero-length paging state: for one table the state that asks for page k is the empty byte string
             let empty_k: Option<usize> = g.empty.as_ref().filter(|(t, _)| *t == table).map(|(_, k)| *k);
-            let page = page_of_state(&params.paging_state, empty_k);
+            let is_const = g.constant.as_deref() == Some(table.as_str());
+            let const_page: Option<usize> = if is_const && params.paging_state.as_deref() == Some(CONST_STATE) { Some(g.cursors.get(&table).copied().unwrap_or(1)) } else { None };
+            let page = const_page.or_else(|| page_of_state(&params.paging_state, empty_k));
             if params.paging_state.as_ref().map(|b| b.is_empty()).unwrap_or(false) {
                 EMPTY_STATES_SEEN.fetch_add(1, Ordering::Relaxed);
             }
@@ -127,12 +135,20 @@ impl World {
                 return Some(Reply::error(ErrorBody::invalid("c07cc: request cap reached (runaway pager)")));
             }
             // the built-in answer, with `mockpg:k` <-> zero-length translated in both directions
-            let serve = |ctx: &mockcluster::ReqCtx| -> Option<Reply> {
-                let k = empty_k?;
+            let sh2 = sh.clone();
+            let table2 = table.clone();
+            let serve = move |ctx: &mockcluster::ReqCtx| -> Option<Reply> {
+                if empty_k.is_none() && !is_const {
+                    return None;
+                }
+                let k = empty_k.unwrap_or(usize::MAX);
                 let mut req = ctx.request.clone();
                 if let Request::Execute { params, .. } | Request::Query { params, .. } = &mut req {
-                    if params.paging_state.as_ref().map(|b| b.is_empty()).unwrap_or(false) {
+                    if params.paging_state.as_ref().map(|b| b.is_empty()).unwrap_or(false) && empty_k.is_some() {
                         params.paging_state = Some(format!("mockpg:{k}").into_bytes());
+                    }
+                    if let Some(p) = const_page {
+                        params.paging_state = Some(format!("mockpg:{p}").into_bytes());
                     }
                 }
                 let ctx2 = mockcluster::ReqCtx {
@@ -151,8 +167,15 @@ impl World {
                 let mut reply = ctx.cluster.builtin(&ctx2);
                 if let Reply::Frame(env) = &mut reply {
                     if let Response::Rows(r) = &mut env.response {
-                        if r.metadata.paging_state.as_deref() == Some(format!("mockpg:{k}").as_bytes()) {
+                        if empty_k.is_some() && r.metadata.paging_state.as_deref() == Some(format!("mockpg:{k}").as_bytes()) {
                             r.metadata.paging_state = Some(Vec::new());
+                        }
+                        if is_const {
+                            // this page is answered: the position moves on; every state handed out is the same bytes
+                            sh2.lock().unwrap().cursors.insert(table2.clone(), page.unwrap_or(0) + 1);
+                            if r.metadata.paging_state.is_some() {
+                                r.metadata.paging_state = Some(CONST_STATE.to_vec());
+                            }
                         }
                     }
                 }
@@ -248,7 +271,14 @@ impl World {
             let Some(t) = table_of(f.statement.as_deref()) else { continue };
             let Some(p) = f.request.params() else { continue };
             let empty_k = case.empty.as_ref().filter(|(et, _)| *et == t).map(|(_, k)| *k);
-            per.entry(t).or_default().push(page_of_state(&p.paging_state, empty_k));
+            let v = per.entry(t.clone()).or_default();
+            if case.constant.as_deref() == Some(t.as_str()) && p.paging_state.as_deref() == Some(CONST_STATE) {
+                // identical bytes on every request: the i-th request with them asks for page i
+                let n = v.iter().filter(|x| x.map(|p| p >= 1).unwrap_or(false)).count();
+                v.push(Some(n + 1));
+            } else {
+                v.push(page_of_state(&p.paging_state, empty_k));
+            }
         }
         let mut out = Vec::new();
         for t in TABLES {
@@ -289,6 +319,8 @@ impl World {
             let mut g = self.shared.lock().unwrap();
             g.armed = case.fault.clone();
             g.empty = case.empty.clone();
+            g.constant = case.constant.clone();
+            g.cursors.clear();
             g.fired = 0;
             g.counts.clear();
             g.cap = 4 * total_pages + 16;
@@ -421,14 +453,15 @@ fn gen_cases(max_peers: usize, faults: bool, thorough: bool) -> Vec<CcCase> {
         for i in 0..n {
             // every table walks through ALL its splits (independently; the tables are read by independent pagers)
             let sp: BTreeMap<String, Vec<usize>> = lists.iter().map(|(t, l)| (t.to_string(), l[i % l.len()].clone())).collect();
-            v.push(CcCase { peers, splits: sp.clone(), fault: None, empty: None });
+            v.push(CcCase { peers, splits: sp.clone(), fault: None, empty: None, constant: None });
             // the same refresh with a ZERO-LENGTH paging state at one position (rotating) of system.peers, and on the
             // 2-node cluster of system_schema.columns
             for t in ["system.peers", "system_schema.columns"] {
                 let pages = sp[t].len();
                 let list_len = lists.iter().find(|(x, _)| *x == t).unwrap().1.len();
                 if pages >= 2 && i < list_len && (t == "system.peers" || peers == 1) {
-                    v.push(CcCase { peers, splits: sp.clone(), fault: None, empty: Some((t.to_string(), 1 + i % (pages - 1))) });
+                    v.push(CcCase { peers, splits: sp.clone(), fault: None, empty: Some((t.to_string(), 1 + i % (pages - 1))), constant: None });
+                    v.push(CcCase { peers, splits: sp.clone(), fault: None, empty: None, constant: Some(t.to_string()) });
                 }
             }
         }
@@ -448,7 +481,7 @@ fn gen_cases(max_peers: usize, faults: bool, thorough: bool) -> Vec<CcCase> {
                         for kind in ["invalid", "delay", "reset", "unprepared"] {
                             let mut sp: BTreeMap<String, Vec<usize>> = lists.iter().map(|(t, l)| (t.to_string(), l[i % l.len()].clone())).collect();
                             sp.insert(ft.to_string(), s.clone());
-                            v.push(CcCase { peers, splits: sp, fault: Some((ft.to_string(), p, kind.to_string())), empty: None });
+                            v.push(CcCase { peers, splits: sp, fault: Some((ft.to_string(), p, kind.to_string())), empty: None, constant: None });
                         }
                     }
                 }
@@ -590,6 +623,7 @@ fn main() {
         r.sample(c.json());
     }
     r.counters.add("cases_fault_free", cases.iter().filter(|c| c.fault.is_none()).count() as u64);
+    r.counters.add("cases_with_constant_paging_state", cases.iter().filter(|c| c.constant.is_some()).count() as u64);
     r.counters.add("cases_with_zero_length_paging_state", cases.iter().filter(|c| c.empty.is_some()).count() as u64);
     for k in ["invalid", "delay", "reset", "unprepared"] {
         r.counters.add(&format!("cases_fault_{k}"), cases.iter().filter(|c| c.fault.as_ref().map(|f| f.2 == k).unwrap_or(false)).count() as u64);
